@@ -3,7 +3,7 @@ from .jobs_clean import CLEAN_LOOP, CLEAN_SRC
 FN = "tinyjambu_hash_update"
 HASH = "repo:src/tinyjambu-hash.c"
 UPD_LOOP = {
-    "fn": FN, "idx": 0, "line": r"while \(inlen >= 16\)",
+    "fn": FN, "idx": 0, "line": r"inlen >= 16",
     "assigns": "in, inlen, __CPROVER_object_whole(state), G.L, G.Rinv, G.P, G.out1, G.n, G.half, G.pos",
     "inv": ("pstate->posn == 0 && G.n == 0 && G.half == 0 && G.pos <= G.inlen && in == G.in + G.pos && inlen == G.inlen - G.pos && "
             + " && ".join("pstate->state.s[%d] == G.L[%d]" % (i, i) for i in range(4)) + " && "
